@@ -151,7 +151,7 @@ func history(r *ev.Run, rng *rand.Rand, store string, sample bool) {
 		if rng.Intn(10) == 0 {
 			n = []int{11, 12, 25, 101}[rng.Intn(4)] // key names depend on the participant count
 		}
-		w := mexplore.NewWorld(rng, n, rng.Intn(n), gen.AppKind(rng.Intn(3)), 1+rng.Intn(2))
+		w := mexplore.NewWellFormedWorld(rng, n, rng.Intn(n), gen.AppKind(rng.Intn(3)), 1+rng.Intn(2))
 		s := &chanSlot{name: fmt.Sprintf("ch%d", i), w: w}
 		// n-1 distinct peers from the pool (fewer if the pool is small)
 		perm := rng.Perm(nPeers)
